@@ -225,6 +225,15 @@ def unhex(s):
     return b"" if s == "-" else bytes.fromhex(s)
 
 
+def only_neg_zero(written, read):
+    """known finding F1z, as narrow as possible: same length, and every position that differs holds -0.0
+    (bits 8000000000000000) on the written side and +0.0 on the read side; at least one such position"""
+    if len(written) != len(read):
+        return False
+    diff = [(w, r) for w, r in zip(written, read) if w != r]
+    return bool(diff) and all(w == "8000000000000000" and r == "0000000000000000" for w, r in diff)
+
+
 ZMAGIC = bytes.fromhex("28b52ffd")
 ZBIG = 8 << 20
 
@@ -347,6 +356,10 @@ class C11(vlib.Spec):
         "dictionary_refuses_257th",
         "dictionary_accepts",
         "float_rt",
+        "float_rt_normZero",
+        "float_rt_exact_up_to_negZero",
+        "float_negZero_counterexample",
+        "floatBitExactStatement_refuted",
         "float_fixed_eq_legacy",
         "float_encode_ne_panic",
         "float_legacy_counterexample",
@@ -355,6 +368,7 @@ class C11(vlib.Spec):
         "decimal_scaling_exact",
         "varArray_rt",
         "tagValues_rt",
+        "tagValues_float_rt",
         "decoder_total_varint",
         "decoder_total_int64List",
         "decoder_total_blocks",
@@ -403,7 +417,9 @@ class C11(vlib.Spec):
             "large items (plain and zstd framing), dictionaries with 1..300 distinct values, float bit patterns (+-0, "
             "subnormals, NaN, Inf, >2^53, 1..17 digit decimals, mixed exponents), var-arrays rich in '|' and '\\\\'; each "
             "encoding is additionally truncated / bit-flipped / length-inflated / extended / replaced by random bytes and "
-            "fed to the decoder with the true and with perturbed item counts; non-trivial = distinct case")
+            "fed to the decoder with the true and with perturbed item counts; non-trivial = distinct case. Known classes: "
+            "F1z (-0.0 in a float list the decimal codec accepts is read back as +0.0) is hit by the float streams and "
+            "matched position by position; F31 is avoided by the generated stream and targeted by the corpus")
 
     def __init__(self):
         import collections
@@ -640,11 +656,17 @@ class C11(vlib.Spec):
             if g == "PANIC":
                 bad = a[0] in "IF" and any(x not in ("n", "6e756c6c") and len(x) != 16 for x in a[1:])
                 return None if bad else ("violation", "EncodeTagValues panicked on well-formed values")
-            return None if o[-1] == "=" and len(o) == 3 else ("violation", "tag values round trip (type %s, encoding %s): %s" % (a[0], o[0], g[:200]))
-        if op == "f64":
-            if g == "REFUSED":
+            if o[-1] == "=" and len(o) == 3:
                 return None
-            return None if o[-1] == "=" else ("violation", "decimal float codec accepted the list but decodes different bits: in=%s out=%s" % (a[:6], g[:300]))
+            if a[0] == "F" and len(o) > 3 and o[2] == "NE" and only_neg_zero(a[1:], o[3:]):
+                return ("known", "F1z", "tag F: -0.0 accepted by the decimal codec is read back as +0.0")
+            return ("violation", "tag values round trip (type %s, encoding %s): %s" % (a[0], o[0], g[:200]))
+        if op == "f64":
+            if g == "REFUSED" or o[-1] == "=":
+                return None
+            if "NE" in o and only_neg_zero(a, o[o.index("NE") + 1:]):
+                return ("known", "F1z", "f64: -0.0 accepted by the decimal codec is read back as +0.0")
+            return ("violation", "decimal float codec accepted the list but decodes different bits: in=%s out=%s" % (a[:6], g[:300]))
         if op == "mp10":
             v, n = int(a[0]), int(a[1])
             exact = v * 10**n if n >= 0 else None
